@@ -417,7 +417,9 @@ class Parser:
 
         if dest is OpCode.PUSH:
             code_gen.push(value)
-        elif value is not dest:
+        elif move_inst is OpCode.MOVEQ or value != dest:
+            # Only moving a variable or register onto itself can be left out;
+            # a string constant may well be spelled like its destination.
             code_gen.add_instruction(move_inst, value, dest)
 
         return self.next_token()
